@@ -13,7 +13,7 @@ CONSTANTS
   MaxN = 1
   MaxSections = 2
   Depth = 6
-  Modes <- MCModes
+  Modes <- AnsiOnly
   Pres <- OnePre
 VIEW HView
 INVARIANT ScreenMatches
